@@ -161,6 +161,7 @@ class Parser:
         root = ElementTree.parse(file).getroot()
         elements = list(root)
         definitions = Definitions()
+        FieldDef.Definitions = {}  # field definitions are per spec file
 
         for element in elements:
             if element.tag == 'enums-root':
